@@ -889,4 +889,9 @@ def ratCfg : NumCfg Rat :=
 /-- Order on natural-number symbols. -/
 def natLt : Nat → Nat → Bool := fun a b => decide (a < b)
 
+/-- The error of a result, if any (`Dist` has no decidable equality; examples compare this). -/
+def errOf {β : Type} : Except Err β → Option Err
+  | .ok _ => none
+  | .error e => some e
+
 end Dit.Lemmas.Construct
